@@ -1,4 +1,5 @@
 import Harper.Props.C03
+import Harper.Props.C13
 /-!
 # C13 (second part) — "fix all" after overlap resolution
 
@@ -85,5 +86,54 @@ example : fixAllBackToFront
 /-- overlapping spans (not what `remove_overlaps` returns) do not commute with the substitution -/
 example : fixAllBackToFront [(⟨0, 2⟩, .remove), (⟨1, 3⟩, .remove)] [1, 2, 3, 4] = .ok [] := rfl
 example : substAll [(⟨0, 2⟩, Suggestion.remove), (⟨1, 3⟩, .remove)] [1, 2, 3, 4] = [4] := rfl
+
+/-! ## Added by the w22 audit -/
+
+/-! ### Composed with `remove_overlaps` itself -/
+
+/-- **"Hence … can all be fixed in one pass, back to front"**, for the OUTPUT OF
+`removeOverlaps`: take any lints that point into the text (`start ≤ end ≤ length`; overlapping,
+nested, equal, zero-width, in any order), run `removeOverlaps`, pick one suggestion `σ x` per
+surviving lint, apply them with `Suggestion.apply` from the last survivor to the first: no panic,
+and the result is the simultaneous substitution. (`fix_all_back_to_front` states this for abstract
+disjoint sorted edits; here its two hypotheses are discharged by `removeOverlaps_subset` and
+`removeOverlaps_disjoint`.) -/
+theorem fix_all_after_removeOverlaps (l : List Lint) (src : List α) (σ : Lint → Suggestion α)
+    (hin : ∀ x ∈ l, x.s ≤ x.e ∧ x.e ≤ src.length) :
+    fixAllBackToFront ((removeOverlaps l).map (fun x => ((⟨x.s, x.e⟩ : Span), σ x))) src
+      = .ok (substAll ((removeOverlaps l).map (fun x => ((⟨x.s, x.e⟩ : Span), σ x))) src) := by
+  apply fix_all_back_to_front
+  · intro e he
+    obtain ⟨x, hx, rfl⟩ := List.mem_map.mp he
+    exact hin x (removeOverlaps_subset l x hx)
+  · rw [List.pairwise_map]
+    exact removeOverlaps_disjoint l (fun x hx => (hin x hx).1)
+
+/-- non-vacuity of `fix_all_after_removeOverlaps`: five lints on "abcdefghi" (nested, touching,
+equal-start, zero-width), suggestion chosen by payload; two survive and both edits land -/
+example :
+    (∀ x ∈ [(⟨0,5,1⟩ : Lint), ⟨3,6,2⟩, ⟨5,5,3⟩, ⟨5,9,4⟩, ⟨2,2,5⟩],
+      x.s ≤ x.e ∧ x.e ≤ [1, 2, 3, 4, 5, 6, 7, 8, 9].length) ∧
+    fixAllBackToFront ((removeOverlaps [⟨0,5,1⟩, ⟨3,6,2⟩, ⟨5,5,3⟩, ⟨5,9,4⟩, ⟨2,2,5⟩]).map
+        (fun x => ((⟨x.s, x.e⟩ : Span),
+          (if x.id = 1 then .replaceWith [20] else .insertAfter [44] : Suggestion Nat))))
+      [1, 2, 3, 4, 5, 6, 7, 8, 9] = .ok [20, 6, 7, 8, 9, 44] := ⟨by decide, rfl⟩
+
+/-- without `removeOverlaps` the same lints, back to front, do NOT give the simultaneous
+substitution (the edits interfere) -/
+example :
+    fixAllBackToFront [((⟨0, 5⟩ : Span), (Suggestion.remove : Suggestion Nat)), (⟨3, 6⟩, .remove)]
+        [1, 2, 3, 4, 5, 6, 7, 8, 9] = .ok [9] ∧
+    substAll [((⟨0, 5⟩ : Span), (Suggestion.remove : Suggestion Nat)), (⟨3, 6⟩, .remove)]
+        [1, 2, 3, 4, 5, 6, 7, 8, 9] = [7, 8, 9] := ⟨rfl, rfl⟩
+
+/-- non-vacuity of `fix_all_back_to_front_from` with `pos > 0`: every span starts at or after 1 -/
+example : fixAllBackToFront
+    [(⟨1, 3⟩, .replaceWith [20, 21, 22]), (⟨3, 4⟩, .remove), (⟨6, 7⟩, .insertAfter [44])]
+    [1, 2, 3, 4, 5, 6, 7, 8]
+    = .ok ([1, 2, 3, 4, 5, 6, 7, 8].take 1 ++ substAllFrom 1
+        [(⟨1, 3⟩, .replaceWith [20, 21, 22]), (⟨3, 4⟩, .remove), (⟨6, 7⟩, .insertAfter [44])]
+        [1, 2, 3, 4, 5, 6, 7, 8]) :=
+  fix_all_back_to_front_from _ _ 1 (by decide) (by decide) (by decide)
 
 end Harper.C13
